@@ -566,3 +566,41 @@ def mutate(src, meta, rng, kind=None, exclude=()):
             meta2.pop("twin", None)
             return out, meta2, k
     return None
+
+
+# ---------------------------------------------------------------- boundary literals
+# constants that sit at the edges of the ranges from which the front end infers a literal's type (2, 4, 6, 8, 12, 16
+# bits for integers; the fixed-point grid for floats), used where their width matters.  A process-wide table of
+# "known types" that earlier work can extend (user-defined types!) shows here.
+BOUNDARY = [
+    "def {n}(a: Qint[4]) -> Qint[12]:\n    return a + 1020\n",
+    "def {n}(a: bool) -> Tuple[Qint[12], bool]:\n    return (1000, a)\n",
+    "def {n}(a: Qint[2]) -> Qint[16]:\n    return a + 5000\n",
+    "def {n}(a: bool) -> Qfixed[1, 6]:\n    return 0.3 if a else 0.5\n",
+    "def {n}(a: Qint[2]) -> Qint[12]:\n    return a + 300\n",
+    "def {n}(a: Qint[4]) -> Qint[16]:\n    return a + 16000\n",
+    "def {n}(a: Qint[4]) -> Qint[8]:\n    return a + 40\n",
+    "def {n}(a: Qint[4]) -> Qint[6]:\n    return a + 20\n",
+    "def {n}(a: Qint[2]) -> bool:\n    return (a + 100) > 101\n",
+    "def {n}(a: bool) -> Tuple[Qint[8], bool]:\n    return (200, a)\n",
+    "def {n}(a: bool) -> Qfixed[1, 4]:\n    return 0.3 if a else 0.75\n",
+    "def {n}(a: bool) -> Tuple[Qint[16], bool]:\n    return (9000, not a)\n",
+]
+
+
+def boundary_literal(rng, name):
+    if rng.random() < 0.5:
+        src = rng.choice(BOUNDARY).format(n=name)
+    else:
+        k = rng.randint(4, 13)
+        lit = rng.choice([2 ** k, 2 ** (k + 1) - 1, rng.randrange(2 ** k, 2 ** (k + 1))])
+        inferred = next(w for w in (2, 4, 6, 8, 12, 16) if lit < 2 ** w)
+        if rng.random() < 0.6:
+            wret = next(w for w in (8, 12, 16, 16) if lit + 16 < 2 ** w) if lit + 16 < 2 ** 16 else 16
+            src = f"def {name}(a: Qint[{rng.choice([2, 4])}]) -> Qint[{wret}]:\n    return a + {lit}\n"
+        else:
+            src = f"def {name}(a: bool) -> Tuple[Qint[{inferred}], bool]:\n    return ({lit}, {rng.choice(['a', 'not a'])})\n"
+    fd = ast.parse(src).body[0]
+    meta = {"id": "boundary", "nargs": 1, "in_bits": 4, "ret_bool": ast.unparse(fd.returns) == "bool",
+            "argsig": [[a.arg, ast.unparse(a.annotation)] for a in fd.args.args], "retsig": ast.unparse(fd.returns), "t": 0.02, "outcome": "ok"}
+    return src, meta
